@@ -378,9 +378,11 @@ PY = {("genericpath", "exists"): "exists", ("genericpath", "isfile"): "exists",
       ("tempfile", "NamedTemporaryFile"): "mkstemp", ("os", "fdopen"): "fdopen",
       ("subprocess", "check_output"): "spawn-cc", ("subprocess", "check_call"): "spawn-cc",
       ("subprocess", "run"): "spawn-cc", ("subprocess", "call"): "spawn-cc",
+      ("glob", "glob"): "listdir", ("glob", "iglob"): "listdir",
       ("ctypes", "CDLL.__init__"): "dlopen"}
 C = {"open": "open", "replace": "replace", "rename": "replace", "unlink": "unlink",
-     "remove": "unlink", "mkdir": "makedirs", "chmod": "chmod"}
+     "remove": "unlink", "mkdir": "makedirs", "chmod": "chmod", "listdir": "listdir",
+     "scandir": "listdir"}
 def hook(frame, event, arg):
     if event == "call":
         back = frame.f_back
